@@ -59,13 +59,29 @@ desc: lz_encoder_init on a small concrete window (16 bytes) with an arbitrary pr
 assume: mf->skip is a recording stub; lzma_alloc/lzma_alloc_zero are stubs that fail or hand out static arrays
 */
 
+/*@obligation
+id: C09.lz_enc.memusage
+props: C09
+entry: h_lz_memusage
+unwind: 20
+restrict: lz_encoder_init.function_pointer_call.1/stub_skip
+fn: lzma_lz_encoder_memusage lz_encoder_prepare lz_encoder_init
+sentinels: 3
+expect: 20
+desc: lzma_lz_encoder_memusage for ALL option values: UINT64_MAX exactly when lz_encoder_prepare refuses the options; otherwise it equals window size + 4 * (hash entries + son entries) + sizeof(lzma_coder) for exactly the sizes lz_encoder_prepare computes for a real encoder with the same options (no 64-bit wrap); and lz_encoder_init requests from the allocator exactly window size + LZMA_MEMCMPLEN_EXTRA, 4 * hash entries and 4 * son entries -- so the estimate is an upper bound of what the LZ encoder allocates up to the constant LZMA_MEMCMPLEN_EXTRA (0 or 16 bytes, inside LZMA_MEMUSAGE_BASE's allowance)
+assume: lzma_alloc/lzma_alloc_zero are recording stubs handing out static arrays (the request sizes are what is compared)
+*/
+
 #include "verif.h"
 #include "liblzma/common/common.h"
 
-static struct { unsigned frees, skips, codes; uint32_t skip_amount, skip_read_pos; } GW;
+static struct { unsigned frees, skips, codes; uint32_t skip_amount, skip_read_pos; unsigned allocs; size_t req[4]; bool zeroed[4]; } GW;
+static uint8_t BUFPOOL[16 + 32]; static bool g_buf_wanted;
 static uint32_t HPOOL[8], SPOOL[8]; static uint8_t g_fail_hash, g_fail_son;
-void *lzma_alloc(size_t s, const lzma_allocator *a) { (void)a; return (g_fail_son || s > sizeof(SPOOL)) ? NULL : SPOOL; }
-void *lzma_alloc_zero(size_t s, const lzma_allocator *a) { (void)a; return (g_fail_hash || s > sizeof(HPOOL)) ? NULL : HPOOL; }
+void *lzma_alloc(size_t s, const lzma_allocator *a) { (void)a; if (GW.allocs < 4) { GW.req[GW.allocs] = s; GW.zeroed[GW.allocs] = false; } ++GW.allocs;
+	if (g_buf_wanted) { g_buf_wanted = false; return s <= sizeof(BUFPOOL) ? BUFPOOL : NULL; }
+	return (g_fail_son || s > sizeof(SPOOL)) ? NULL : SPOOL; }
+void *lzma_alloc_zero(size_t s, const lzma_allocator *a) { (void)a; if (GW.allocs < 4) { GW.req[GW.allocs] = s; GW.zeroed[GW.allocs] = true; } ++GW.allocs; return (g_fail_hash || s > sizeof(HPOOL)) ? NULL : HPOOL; }
 void lzma_free(void *p, const lzma_allocator *a) { (void)a; if (p != NULL) ++GW.frees; }
 void lzma_next_end(lzma_next_coder *n, const lzma_allocator *a) { (void)a; *n = LZMA_NEXT_CODER_INIT; }
 lzma_ret lzma_next_filter_init(lzma_next_coder *n, const lzma_allocator *a, const lzma_filter_info *f) { (void)n; (void)a; (void)f; return LZMA_OK; }
@@ -277,4 +293,35 @@ void h_lz_init(void)
 		ASSERT(GW.skips == 0 && mf.read_pos == 0, "no preset dictionary");
 		REACH(lzinit_plain);
 	}
+}
+
+
+/* ---------------- lzma_lz_encoder_memusage ---------------- */
+void h_lz_memusage(void)
+{
+	HAVOC(IN, struct in);
+	ASSUME(IN.before <= (1u << 17) && IN.after <= (1u << 13) && IN.mlm <= 273 && IN.mlm >= 2);
+	ASSUME(IN.nice >= (IN.mfid & 0x0F));
+	lzma_lz_options o; memset(&o, 0, sizeof(o));
+	o.before_size = IN.before; o.dict_size = IN.dict; o.after_size = IN.after; o.match_len_max = IN.mlm; o.nice_len = IN.nice;
+	o.match_finder = (lzma_match_finder)IN.mfid; o.depth = IN.depth;
+	memset(&GW, 0, sizeof(GW));
+	const uint64_t est = lzma_lz_encoder_memusage(&o);
+	/* what a real encoder with these options computes */
+	lzma_mf mf; memset(&mf, 0, sizeof(mf));
+	const bool bad = lz_encoder_prepare(&mf, NULL, &o);
+	ASSERT((est == UINT64_MAX) == bad, "the estimate is UINT64_MAX exactly when the options are refused");
+	if (bad) { REACH(mu_refused); return; }
+	ASSERT(est == (uint64_t)mf.size + 4 * ((uint64_t)mf.hash_count + mf.sons_count) + sizeof(lzma_coder), "estimate = window + 4*(hash + son entries) + coder object, for the sizes a real encoder computes");
+	ASSERT(est < (UINT64_C(1) << 36), "no wrap: the estimate stays far below 2^64");
+	REACH(mu_ok);
+	/* and those are the sizes lz_encoder_init asks the allocator for (small concrete instance, buffer not yet allocated) */
+	lzma_mf m2; memset(&m2, 0, sizeof(m2)); memset(&GW, 0, sizeof(GW));
+	m2.size = 16; m2.cyclic_size = 9; m2.hash_count = 3; m2.sons_count = 5; m2.skip = &stub_skip;
+	g_buf_wanted = true; g_fail_hash = 0; g_fail_son = 0;
+	lzma_lz_options o2; memset(&o2, 0, sizeof(o2));
+	ASSERT(!lz_encoder_init(&m2, NULL, &o2), "small instance initialises");
+	ASSERT(GW.allocs == 3 && GW.req[0] == 16 + LZMA_MEMCMPLEN_EXTRA && GW.req[1] == 3 * 4 && GW.zeroed[1] && GW.req[2] == 5 * 4, "lz_encoder_init allocates window + LZMA_MEMCMPLEN_EXTRA, 4*hash_count (zeroed) and 4*sons_count");
+	ASSERT(LZMA_MEMCMPLEN_EXTRA <= 16, "the only slack between estimate and allocation is LZMA_MEMCMPLEN_EXTRA");
+	REACH(mu_init_requests);
 }
